@@ -7,7 +7,7 @@ From MW Require Import Model.Base Model.F64 Model.Num Model.Datum Model.Lex Mode
   Proofs.GcProofs Proofs.SymtabProofs Proofs.VmProofs0 Proofs.FlatProofs Proofs.FlatAll
   Proofs.QuoteHeapProofs Proofs.RunProofs Proofs.CompileCorrect Proofs.CellFuelProofs Proofs.CompileCorrect2
   Proofs.FragmentCorollaries Proofs.Closures3 Proofs.EvalFragment3
-  Proofs.KeepCalc Proofs.KeepRun Proofs.BootMinv.
+  Proofs.KeepCalc Proofs.KeepRun Proofs.BootMinv Proofs.BootGenv.
 Open Scope N_scope.
 
 (* ------------------------------------------------------------------ (quote d) *)
@@ -78,3 +78,44 @@ Proof.
   apply Z.eqb_eq in H. subst z.
   exists s'. split; [reflexivity|]. pose proof (eval_rinv_ok _ _ _ _ _ F0 E) as R. split; [exact R|apply rinv_minv, R].
 Qed.
+
+(* the machine of Vm::new WITHOUT the prelude text: load_builtins over the whole generated table
+   succeeds, the result satisfies minv and binds every builtin name *)
+Lemma boot_bare :
+  exists s, boot_with [] = Some s /\ load_builtins (vm_empty 8192) = ROk tt s /\ rinv s /\ minv s /\
+            genv_rel builtin_rho s /\ genv_rel3 builtin_rho3 s.
+Proof.
+  destruct (load_builtins_empty 8192 eq_refl) as (s0 & E & M & G1 & G3). exists s0.
+  pose proof (load_builtins_rinv (vm_empty 8192) (rinv_empty 8192 eq_refl)) as R. rewrite E in R.
+  unfold boot_with. rewrite E. split; [reflexivity|]. auto.
+Qed.
+
+(* (not '#f) on that machine: the operator is the GLOBAL `not` bound by load_builtins; every
+   hypothesis of eval_fragment3 holds there with the environment of ALL builtin names ... *)
+Definition bn_e : expr3 := YApp (YVar (S_ "not")) [YQuote (CBool false)].
+Lemma bn_hypotheses :
+  exists s, load_builtins (vm_empty 8192) = ROk tt s /\ minv s /\ genv_rel3 builtin_rho3 s /\ wf3 bn_e [] /\
+    ref_eval3 bsem_not [] [] builtin_rho3 bn_e (R3Base (RDatum (CBool true))) builtin_rho3 /\
+    transform_expr TRANSFORM_FUEL s (cell_of3 bn_e) = Ok (cell_of3 bn_e).
+Proof.
+  destruct boot_bare as (s & _ & E & _ & M & _ & G3). exists s.
+  split; [exact E|]. split; [exact M|]. split; [exact G3|]. split.
+  { apply wf3_app. split; [reflexivity|]. split; [reflexivity|]. repeat constructor. }
+  split.
+  { eapply (R3_app_builtin bsem_not [] [] _ _ _ [RDatum (CBool false)] _ B_NOT).
+    - cbn [map]. eapply R3_cons; [apply R3_quote|apply R3_nil].
+    - apply R3_global; [reflexivity|vm_compute; reflexivity|discriminate].
+    - reflexivity. }
+  assert (H : match load_builtins (vm_empty 8192) with
+              | ROk _ s0 => transform_expr TRANSFORM_FUEL s0 (cell_of3 bn_e)
+              | _ => Err 0 end = Ok (cell_of3 bn_e)) by (vm_compute; reflexivity).
+  rewrite E in H. exact H.
+Qed.
+(* ... and the model computes #t *)
+Lemma bn_run :
+  match load_builtins (vm_empty 8192) with
+  | ROk _ s => match eval other_builtin 200 (cell_of3 bn_e) s with
+               | ROk (Done c) s' => c = CBool true /\ sp s' = 0 /\ bp s' = 0 /\ ep s' = USIZE_MAX
+               | _ => False end
+  | _ => False end.
+Proof. vm_compute. repeat split. Qed.
